@@ -42,6 +42,11 @@ def main():
     if "--keep" in args:
         keep = True
         args.remove("--keep")
+    nosuite = False
+    if "--no-suite" in args:
+        # re-evaluation of a seed whose suite run was recorded when it was filed (speeds up the final recheck)
+        nosuite = True
+        args.remove("--no-suite")
     patch, demo, name, prop = args[:4]
     checks = args[4:] or [prop]
     patch, demo = os.path.abspath(patch), os.path.abspath(demo)
@@ -66,12 +71,16 @@ def main():
         if r.returncode:
             print("PATCH DOES NOT APPLY:\n" + r.stdout)
             return 2
-        r = sh([os.path.join(V, "tools", "baseline.py"), wt])
-        meta["suite_with_patch"] = r.stdout.strip().splitlines()[0] if r.stdout.strip() else ""
-        meta["ran"].append("pinned suite with patch: " + meta["suite_with_patch"])
-        if r.returncode != 0:
-            print("SUITE CATCHES IT:\n" + r.stdout[-1500:])
-            ok = False
+        if nosuite:
+            meta["suite_with_patch"] = "not re-run (recorded when the change was filed)"
+            meta["ran"].append("pinned suite with patch: not re-run in this re-evaluation")
+        else:
+            r = sh([os.path.join(V, "tools", "baseline.py"), wt])
+            meta["suite_with_patch"] = r.stdout.strip().splitlines()[0] if r.stdout.strip() else ""
+            meta["ran"].append("pinned suite with patch: " + meta["suite_with_patch"])
+            if r.returncode != 0:
+                print("SUITE CATCHES IT:\n" + r.stdout[-1500:])
+                ok = False
         r = sh(["/venv/bin/python", demo], env=env, cwd=wt)
         meta["demo_with_patch_rc"] = r.returncode
         meta["demo_with_patch_tail"] = r.stdout.strip()[-400:]
